@@ -200,11 +200,8 @@ example : (Model.setLeaf 1 2 99 (.nest [.leaf [1, 2, 3], .nest [.leaf [4, 5, 6],
 
 /-- **text pin**: the generated functions this property's hand-written model describes have, in
     /repo today, exactly the text the model was written from (`Soa/Model/Pinned.lean`) -/
-theorem bodies_pinned :
-    Soa.Extracted.bodies.filter (fun r => Soa.Model.scopeOf r == "C05") =
-    Soa.Model.pinned.filter (fun r => Soa.Model.scopeOf r == "C05") := by decide +kernel
+theorem bodies_pinned : Soa.Extracted.bodies_C05 = Soa.Model.pinned_C05 := rfl
 
-theorem bodies_pinned_nonempty :
-    (Soa.Model.pinned.filter (fun r => Soa.Model.scopeOf r == "C05")).length ≥ 4 := by decide +kernel
+theorem bodies_pinned_nonempty : Soa.Model.pinned_C05.length ≥ 4 := by decide
 
 end Soa.C05
